@@ -14,8 +14,8 @@ DECIDES = ('derivative tables are indexed [u-order][v-order] consistently from p
            'slot [-1] and the result divided by w^(0[,0]) (RQ1); in the alternative evaluators basis tables are indexed [function][degree - order] '
            'with function/order indices of the matching PK/PKL positions and loops over degree - order + 1 functions (A34); derivative control '
            'point tables are written at [u-order][v-order][u-index][v-index] with direction-coherent indices, net strides and knot-vector slices '
-           '(PK1, LY1, AX1); [SKEL, bounded] for degrees 1..4, orders 0..degree+2, every span: no index error, no None placeholder consumed in any '
-           'of the 6 derivative evaluators and 4 helpers. the [0, 1] parameter rejection is only evaluated for shapes with normalised knot vectors (RG1).')
+           '(PK1, LY1, AX1), and in A3.3 the scalar factor of the difference quotient equals the index distance of the two knots it is divided by (PK2); [SKEL, bounded] for degrees 1..4, orders 0..degree+2, every span: no index error, no None placeholder consumed in any '
+           'of the 6 derivative evaluators and 4 helpers. the [0, 1] parameter rejection is only evaluated for shapes with normalised knot vectors (RG1). every sum of the quotient rule restarts from zero between its consumption and its next accumulation (RQ1.sums-restart, CFG); the list variants of tangent/normal return the single-parameter result per parameter (TN2); every hodograph shape is a copy of the input or built with its normalize_kv, so it is parametrised like the input (HD2).')
 NOT_DECIDED = 'the value of any derivative; unit length of normalised vectors (numerical); hodograph control point values; finite-difference agreement.'
 TECHNIQUE = 'axis-tag dataflow, index-sum identities in polynomial normal form, call-contract guards; bounded index-skeleton interpretation for definedness'
 
@@ -33,6 +33,7 @@ def check(m, run):
     rq1(m, run, ev('SurfaceEvaluatorRational'), 2)
     a34(m, run, ev('CurveEvaluator2'), ev('SurfaceEvaluator2'))
     pk1(m, run)
+    pk2(m, run)
     funcs = [ev(c) for c in ('CurveEvaluator', 'CurveEvaluator2', 'SurfaceEvaluator', 'SurfaceEvaluator2')] + \
         [m.func('helpers.surface_deriv_cpts'), m.func('helpers.curve_deriv_cpts')]
     rl.ly1_canonical(m, run, funcs)
@@ -445,6 +446,52 @@ def a34(m, run, fc, fs):
 
 
 # ---------------------------------------------------------------------------------------------- PK1
+def pk2(m, run):
+    """PK2 (A3.3): P_i^(k) = (p - k + 1) / (U[i+p+1] - U[i+k]) * (P_{i+1}^(k-1) - P_i^(k-1)).  Internal consistency visible in the
+    code: the scalar factor equals the index distance of the two knots in the denominator, (i + p + 1) - (i + k).  Both are compared
+    in polynomial normal form after resolving the locals that stand for them."""
+    fi = m.func('helpers.curve_deriv_cpts')
+    defs = {}
+    for a in walk_no_nested(fi.node):
+        if isinstance(a, ast.Assign) and len(a.targets) == 1 and isinstance(a.targets[0], ast.Name):
+            defs.setdefault(a.targets[0].id, []).append(a.value)
+
+    def env(nm):
+        d = defs.get(nm.id, [])
+        return d[0] if len(d) == 1 and not isinstance(d[0], (ast.Call, ast.ListComp, ast.List)) else None
+    n = 0
+    for dv in [x for x in walk_no_nested(fi.node) if isinstance(x, ast.BinOp) and isinstance(x.op, ast.Div)]:
+        den = dv.right
+        if not (isinstance(den, ast.BinOp) and isinstance(den.op, ast.Sub) and isinstance(den.left, ast.Subscript) and isinstance(den.right, ast.Subscript)
+                and norm(den.left.value) == norm(den.right.value)):
+            continue
+        num = dv.left
+        facs = []
+
+        def flat(e):
+            if isinstance(e, ast.BinOp) and isinstance(e.op, ast.Mult):
+                flat(e.left)
+                flat(e.right)
+            else:
+                facs.append(e)
+        flat(num)
+        scal = [f for f in facs if not (isinstance(f, ast.BinOp) and isinstance(f.op, ast.Sub))]
+        if len(scal) != 1:
+            continue
+        try:
+            factor = to_poly(scal[0], env=env)
+            dist = to_poly(den.left.slice, env=env) - to_poly(den.right.slice, env=env)
+        except NotPoly:
+            continue
+        n += 1
+        run.ob('PK2.factor-equals-knot-index-distance', '%s :: %s' % (fi.key, norm(dv)[:70]), factor == dist,
+               'factor %s = index distance of the knots in the denominator' % factor if factor == dist else
+               'the derivative control points are scaled by `%s` but divided by a knot difference spanning %s knot intervals: in A3.3 both are degree - k + 1'
+               % (factor, dist), site(fi, dv))
+    if n < 1:
+        raise AnalysisError('curve_deriv_cpts: difference quotient not found')
+
+
 def pk1(m, run):
     fi = m.func('helpers.surface_deriv_cpts')
     sc = ra.scope_of(fi)
